@@ -51,7 +51,14 @@ func (f *UnwindProtect) Call(s *slip.Scope, args slip.List, depth int) (result s
 	d2 := depth + 1
 	defer func() {
 		for i := 1; i < len(args); i++ {
-			_ = slip.EvalArg(s, args, i, d2)
+			switch tr := slip.EvalArg(s, args, i, d2).(type) {
+			case *slip.ReturnResult, *GoTo:
+				// A return-from or go out of a cleanup form replaces the
+				// result, exit or error that was in progress.
+				_ = recover()
+				result = tr
+				return
+			}
 		}
 	}()
 	return slip.EvalArg(s, args, 0, d2)
